@@ -4,9 +4,8 @@ Layer B — dated ranges (`MonthdayRange.date`), part S: soundness of the hint.
 
 S1: not a single fixed day and the start carries a year (`single_interval_from_bounds` answers):
     unconditional.  Single fixed day with a year (one-element year list): unconditional.
-S2: yearless single-day path (`Feb 29`, `Jan 01 +Su-Jan 01 +3 days` …): sound under `SDLocal` (the shifted
-    bounds of the occurrence of year `k` stay within about a year of year `k`) or `SDEmpty` (every
-    occurrence is empty); decidable sufficient condition `singleDaySafe`.
+S2 (yearless single day) and S3 (windowed general path): OH/Proofs/HintDatedWindow.lean — any offsets
+    within ±100 000 days, through the refinement `filter = datedOk`.
 -/
 namespace OH.Model
 open OH.Model.Cal
@@ -192,358 +191,5 @@ theorem singleIntervalV_none_iff (s : DateSpec) (so : DateOffset) (e : DateSpec)
           | some en => rw [hb'] at h; simp at h
   · intro h
     unfold singleIntervalV; rw [h]
-
-/-! ### consecutive years -/
-
-/-- `[lo, lo+1, …, lo+n-1]` -/
-def yearsFrom (lo : Int) : Nat → List Int
-  | 0 => []
-  | n + 1 => lo :: yearsFrom (lo + 1) n
-
-theorem map_range_eq_yearsFrom (lo : Int) (n : Nat) :
-    (List.range n).map (fun (i : Nat) => lo + (i : Int)) = yearsFrom lo n := by
-  induction n generalizing lo with
-  | zero => rfl
-  | succ n ih =>
-    rw [List.range_succ_eq_map, List.map_cons, List.map_map, yearsFrom, ← ih (lo + 1)]
-    congr 1
-    · simp
-    · apply List.map_congr_left
-      intro i _
-      simp only [Function.comp, Nat.succ_eq_add_one]
-      omega
-
-theorem yearsAround_eq (y : Int) (b a : Nat) : yearsAround y b a = yearsFrom (y - (b : Int)) (b + a + 1) := by
-  unfold yearsAround
-  exact map_range_eq_yearsFrom _ _
-
-theorem yearsAround_1_1 (y : Int) : yearsAround y 1 1 = yearsFrom (y - 1) 3 := by
-  rw [yearsAround_eq]; rfl
-
-theorem yearsAround_1_10 (y : Int) : yearsAround y 1 10 = yearsFrom (y - 1) 12 := by
-  rw [yearsAround_eq]; rfl
-
-theorem mem_yearsFrom {lo : Int} {n : Nat} {k : Int} : k ∈ yearsFrom lo n ↔ lo ≤ k ∧ k < lo + n := by
-  induction n generalizing lo with
-  | zero => simp [yearsFrom]
-  | succ n ih =>
-    simp only [yearsFrom, List.mem_cons, ih]
-    omega
-
-/-! ### S2: the single-day path -/
-
-theorem singleDayV_none_iff (m dd : Nat) (so eo : DateOffset) (d : Int) (ys : List Int) :
-    singleDayV m dd so eo d ys = none ↔ ∀ k ∈ ys, ∀ f, ofYmd? k m dd = some f → eo.shiftC f < d := by
-  induction ys with
-  | nil => simp [singleDayV]
-  | cons y ys ih =>
-    simp only [singleDayV, List.mem_cons, forall_eq_or_imp]
-    cases hf : ofYmd? y m dd with
-    | none => simp [ih]
-    | some f =>
-      simp only [Option.some.injEq, forall_eq']
-      by_cases hc : eo.shiftC f ≥ d
-      · simp only [hc, if_true, reduceCtorEq, false_iff]
-        intro h; omega
-      · simp only [hc, if_false, ih]
-        constructor
-        · intro h; exact ⟨by omega, h⟩
-        · intro h; exact h.2
-
-/-- what `singleDayV` finds on consecutive years: the first year whose occurrence exists and ends
-at or after `d` -/
-theorem singleDayV_some (m dd : Nat) (so eo : DateOffset) (d : Int) (lo : Int) (n : Nat) (r : Int × Int)
-    (h : singleDayV m dd so eo d (yearsFrom lo n) = some r) :
-    ∃ k f, lo ≤ k ∧ k < lo + n ∧ ofYmd? k m dd = some f ∧ d ≤ eo.shiftC f ∧ r = (so.shiftC f, eo.shiftC f) ∧
-      ∀ j f', lo ≤ j → j < k → ofYmd? j m dd = some f' → eo.shiftC f' < d := by
-  induction n generalizing lo with
-  | zero => simp [yearsFrom, singleDayV] at h
-  | succ n ih =>
-    simp only [yearsFrom, singleDayV] at h
-    cases hf : ofYmd? lo m dd with
-    | none =>
-      rw [hf] at h
-      obtain ⟨k, f, a, b, c, e1, e2, e3⟩ := ih (lo + 1) h
-      refine ⟨k, f, by omega, by omega, c, e1, e2, ?_⟩
-      intro j f' j1 j2 hj
-      by_cases hjl : j = lo
-      · subst hjl; rw [hf] at hj; cases hj
-      · exact e3 j f' (by omega) j2 hj
-    | some f =>
-      rw [hf] at h
-      simp only [] at h
-      by_cases hc : eo.shiftC f ≥ d
-      · rw [if_pos hc] at h
-        simp only [Option.some.injEq] at h
-        refine ⟨lo, f, by omega, by omega, hf, hc, h.symm, ?_⟩
-        intro j f' j1 j2; omega
-      · rw [if_neg hc] at h
-        obtain ⟨k, f0, a, b, c, e1, e2, e3⟩ := ih (lo + 1) h
-        refine ⟨k, f0, by omega, by omega, c, e1, e2, ?_⟩
-        intro j f' j1 j2 hj
-        by_cases hjl : j = lo
-        · subst hjl; rw [hf] at hj; cases hj; omega
-        · exact e3 j f' (by omega) j2 hj
-
-theorem singleDayV_found (m dd : Nat) (so eo : DateOffset) (d : Int) (lo : Int) (n : Nat) (k f : Int)
-    (h1 : lo ≤ k) (h2 : k < lo + n) (hf : ofYmd? k m dd = some f) (hd : d ≤ eo.shiftC f)
-    (hfirst : ∀ j f', lo ≤ j → j < k → ofYmd? j m dd = some f' → eo.shiftC f' < d) :
-    singleDayV m dd so eo d (yearsFrom lo n) = some (so.shiftC f, eo.shiftC f) := by
-  induction n generalizing lo with
-  | zero => omega
-  | succ n ih =>
-    simp only [yearsFrom, singleDayV]
-    by_cases hk : k = lo
-    · subst hk
-      rw [hf]
-      simp only []
-      rw [if_pos hd]
-    · have hrec := ih (lo + 1) (by omega) (by omega) (fun j f' a b c => hfirst j f' (by omega) b c)
-      cases hf' : ofYmd? lo m dd with
-      | none => exact hrec
-      | some f' =>
-        simp only []
-        have := hfirst lo f' (by omega) (by omega) hf'
-        rw [if_neg (by omega)]
-        exact hrec
-
-theorem leap_within8 (y : Int) : ∃ k, y ≤ k ∧ k ≤ y + 7 ∧ isLeap k = true := by
-  by_cases h0 : isLeap y = true
-  · exact ⟨y, by omega, by omega, h0⟩
-  by_cases h1 : isLeap (y+1) = true
-  · exact ⟨y+1, by omega, by omega, h1⟩
-  by_cases h2 : isLeap (y+2) = true
-  · exact ⟨y+2, by omega, by omega, h2⟩
-  by_cases h3 : isLeap (y+3) = true
-  · exact ⟨y+3, by omega, by omega, h3⟩
-  by_cases h4 : isLeap (y+4) = true
-  · exact ⟨y+4, by omega, by omega, h4⟩
-  by_cases h5 : isLeap (y+5) = true
-  · exact ⟨y+5, by omega, by omega, h5⟩
-  by_cases h6 : isLeap (y+6) = true
-  · exact ⟨y+6, by omega, by omega, h6⟩
-  refine ⟨y+7, by omega, by omega, ?_⟩
-  rw [isLeap_iff] at *
-  omega
-
-/-- a month/day that exists in no year of an 8-year stretch exists in no year at all -/
-theorem ofYmd?_never (m dd : Nat) (y : Int) (h1 : minYear ≤ y) (h2 : y + 7 ≤ maxYear)
-    (h : ∀ k, y ≤ k → k ≤ y + 7 → ofYmd? k m dd = none) (j : Int) : ofYmd? j m dd = none := by
-  cases hj : ofYmd? j m dd with
-  | none => rfl
-  | some g =>
-    exfalso
-    obtain ⟨_, _, ⟨v1, v2, v3, v4⟩, _⟩ := ofYmd?_eq_some_iff.1 hj
-    obtain ⟨k, k1, k2, k3⟩ := leap_within8 y
-    have hk := h k k1 k2
-    rw [ofYmd?_eq_none_iff] at hk
-    apply hk
-    refine ⟨by omega, by omega, v1, v2, v3, ?_⟩
-    by_cases hm : m = 2
-    · subst hm
-      have := (daysInMonth_bounds j 2).2
-      rw [daysInMonth_feb] at *
-      rw [k3]
-      split at v4 <;> simp <;> omega
-    · rw [daysInMonth_of_ne_feb k j hm]; exact v4
-
-theorem ymdRaw_year_mono {k j : Int} {m dd : Nat} (h : k ≤ j) (vk : ValidYmd k m dd) (vj : ValidYmd j m dd) :
-    ymdRaw k m dd ≤ ymdRaw j m dd := by
-  by_cases e : k = j
-  · subst e; omega
-  · have a := ymdRaw_bounds vk
-    have b := ymdRaw_bounds vj
-    have c := yearStart_succ k
-    have := yearStart_le (a := k + 1) (b := j) (by omega)
-    omega
-
-theorem ofYmd?_year_mono {k j : Int} {m dd : Nat} {f g : Int} (h : k ≤ j) (hk : ofYmd? k m dd = some f)
-    (hj : ofYmd? j m dd = some g) : f ≤ g := by
-  obtain ⟨_, _, vk, rfl⟩ := ofYmd?_eq_some_iff.1 hk
-  obtain ⟨_, _, vj, rfl⟩ := ofYmd?_eq_some_iff.1 hj
-  exact ymdRaw_year_mono h vk vj
-
-/-- every occurrence (years 1899 … 10009) is empty: shifted end before shifted start -/
-def SDEmpty (m dd : Nat) (so eo : DateOffset) : Prop :=
-  ∀ k f, 1899 ≤ k → k ≤ 10009 → ofYmd? k m dd = some f → eo.shiftC f < so.shiftC f
-
-/-- locality of the occurrences (years 1899 … 10009): the occurrence of year `k` ends before Jan 1 of
-year `k + 2`, starts at or after Jan 1 of `k - 1` and ends at or after Jan 1 of `k - 2` -/
-structure SDLocal (m dd : Nat) (so eo : DateOffset) : Prop where
-  l1 : ∀ k f, 1899 ≤ k → k ≤ 10009 → ofYmd? k m dd = some f → eo.shiftC f ≤ yearStart (k + 2)
-  l2 : ∀ k f, 1899 ≤ k → k ≤ 10009 → ofYmd? k m dd = some f → yearStart (k - 1) < so.shiftC f
-  l4 : ∀ k f, 1899 ≤ k → k ≤ 10009 → ofYmd? k m dd = some f → yearStart (k - 2) < eo.shiftC f
-
-/-- the pure single-day filter and hint -/
-def sdFilterV (m dd : Nat) (so eo : DateOffset) (d : Int) : Bool :=
-  match singleDayV m dd so eo d (yearsAround (year d) 1 1) with
-  | none => false
-  | some r => r.1 ≤ d && d ≤ r.2
-
-def sdHintV (m dd : Nat) (so eo : DateOffset) (d : Int) : Int :=
-  match singleDayV m dd so eo d (yearsAround (year d) 1 10) with
-  | none => dateEnd
-  | some r => if r.1 ≤ d then (succ? r.2).getD dateEnd else r.1
-
-theorem sd_sound_empty (m dd : Nat) (so eo : DateOffset) (hE : SDEmpty m dd so eo) (d : Int)
-    (hd1 : dateStart ≤ d) (hd2 : d < dateEnd) :
-    d < sdHintV m dd so eo d ∧ ∀ d', d ≤ d' → d' < dateEnd → sdFilterV m dd so eo d' = false := by
-  constructor
-  · obtain ⟨y1, y2⟩ := year_window hd1 hd2
-    unfold sdHintV
-    rw [yearsAround_1_10]
-    cases hs : singleDayV m dd so eo d (yearsFrom (year d - 1) 12) with
-    | none => exact hd2
-    | some r =>
-      obtain ⟨k, f, k1, k2, hf, hb, rfl, _⟩ := singleDayV_some _ _ _ _ _ _ _ _ hs
-      have := hE k f (by omega) (by omega) hf
-      simp only []
-      rw [if_neg (by omega)]; omega
-  · intro d' h1 h2
-    obtain ⟨y1, y2⟩ := year_window (by omega) h2
-    unfold sdFilterV
-    rw [yearsAround_1_1]
-    cases hs : singleDayV m dd so eo d' (yearsFrom (year d' - 1) 3) with
-    | none => rfl
-    | some r =>
-      obtain ⟨k, f, k1, k2, hf, hb, rfl, _⟩ := singleDayV_some _ _ _ _ _ _ _ _ hs
-      have := hE k f (by omega) (by omega) hf
-      simp only [Bool.and_eq_false_iff, decide_eq_false_iff_not]
-      omega
-
-theorem sd_sound_local (m dd : Nat) (so eo : DateOffset) (hso : so.wf = true) (hL : SDLocal m dd so eo) (d : Int)
-    (hd1 : dateStart ≤ d) (hd2 : d < dateEnd) :
-    d < sdHintV m dd so eo d ∧
-      ∀ d', d ≤ d' → d' < sdHintV m dd so eo d → d' < dateEnd → sdFilterV m dd so eo d' = sdFilterV m dd so eo d := by
-  have hmax := maxDay_eq; have hend := Cal.dateEnd_eq
-  obtain ⟨y1, y2⟩ := year_window hd1 hd2
-  obtain ⟨ys1, ys2⟩ := year_spec d
-  have hmin : minYear = -262143 := rfl
-  have hmaxy : maxYear = 262142 := rfl
-  -- occurrences of years before the hint's window end before `d`
-  have hpre : ∀ j f', 1899 ≤ j → j < year d - 1 → ofYmd? j m dd = some f' → eo.shiftC f' < d := by
-    intro j f' j1 j2 hj
-    have := hL.l1 j f' j1 (by omega) hj
-    have := yearStart_le (a := j + 2) (b := year d) (by omega)
-    omega
-  -- the filter at a later day `d'` in terms of the window of `d'`
-  unfold sdHintV
-  rw [yearsAround_1_10]
-  cases hs : singleDayV m dd so eo d (yearsFrom (year d - 1) 12) with
-  | none =>
-    -- nothing found: the date exists in no year
-    simp only []
-    rw [singleDayV_none_iff] at hs
-    have hnone : ∀ k, year d + 3 ≤ k → k ≤ year d + 3 + 7 → ofYmd? k m dd = none := by
-      intro k k1 k2
-      cases hk : ofYmd? k m dd with
-      | none => rfl
-      | some f =>
-        exfalso
-        have a := hs k (mem_yearsFrom.2 ⟨by omega, by omega⟩) f hk
-        have b := hL.l4 k f (by omega) (by omega) hk
-        have := yearStart_le (a := year d + 1) (b := k - 2) (by omega)
-        omega
-    have hnever := ofYmd?_never m dd (year d + 3) (by omega) (by omega) hnone
-    have hfalse : ∀ d', sdFilterV m dd so eo d' = false := by
-      intro d'
-      unfold sdFilterV
-      have : singleDayV m dd so eo d' (yearsAround (year d') 1 1) = none := by
-        rw [singleDayV_none_iff]
-        intro k _ f hk
-        rw [hnever k] at hk; cases hk
-      rw [this]
-    refine ⟨hd2, ?_⟩
-    intro d' _ _ _
-    rw [hfalse d', hfalse d]
-  | some r =>
-    obtain ⟨k, f, k1, k2, hf, hb, rfl, hfirst⟩ := singleDayV_some _ _ _ _ _ _ _ _ hs
-    have hl1 := hL.l1 k f (by omega) (by omega) hf
-    have hl2 := hL.l2 k f (by omega) (by omega) hf
-    -- all earlier occurrences end before `d`
-    have hbefore : ∀ j f', 1899 ≤ j → j < k → ofYmd? j m dd = some f' → eo.shiftC f' < d := by
-      intro j f' j1 j2 hj
-      by_cases hjw : year d - 1 ≤ j
-      · exact hfirst j f' hjw j2 hj
-      · exact hpre j f' j1 (by omega) hj
-    simp only []
-    have hle : yearStart (k + 2) ≤ yearStart 10011 := yearStart_le (by omega)
-    have h10011 : yearStart 10011 = 3656077 := by decide
-    by_cases ha : so.shiftC f ≤ d
-    · -- inside the occurrence: the hint is the day after its end
-      rw [if_pos ha]
-      have hsucc : succ? (eo.shiftC f) = some (eo.shiftC f + 1) := by rw [succ?_eq_some_iff]; omega
-      rw [hsucc, Option.getD_some]
-      refine ⟨by omega, ?_⟩
-      have hin : ∀ d', d ≤ d' → d' < eo.shiftC f + 1 → d' < dateEnd → sdFilterV m dd so eo d' = true := by
-        intro d' a b c
-        obtain ⟨z1, z2⟩ := year_window (by omega) c
-        obtain ⟨zs1, zs2⟩ := year_spec d'
-        have g1 : year d' ≤ k + 1 := by
-          have : d' ≤ yearStart (k + 1 + 1) := by rw [show k + 1 + 1 = k + 2 by omega]; omega
-          have := le_yearStart_iff.1 this
-          omega
-        have g2 : k - 1 ≤ year d' := by
-          have : yearStart (k - 1) < d' := by omega
-          exact yearStart_lt_iff_le_year.1 this
-        unfold sdFilterV
-        rw [yearsAround_1_1]
-        rw [singleDayV_found m dd so eo d' (year d' - 1) 3 k f (by omega) (by omega) hf (by omega)
-          (fun j f' j1 j2 hj => by have := hbefore j f' (by omega) j2 hj; omega)]
-        simp only [Bool.and_eq_true, decide_eq_true_eq]
-        omega
-      intro d' a b c
-      rw [hin d' a b c, hin d (Int.le_refl _) (by omega) hd2]
-    · -- before the occurrence: the hint is its start
-      rw [if_neg ha]
-      refine ⟨by omega, ?_⟩
-      have hout : ∀ d', d ≤ d' → d' < so.shiftC f → d' < dateEnd → sdFilterV m dd so eo d' = false := by
-        intro d' a b c
-        obtain ⟨z1, z2⟩ := year_window (by omega) c
-        unfold sdFilterV
-        rw [yearsAround_1_1]
-        cases hs' : singleDayV m dd so eo d' (yearsFrom (year d' - 1) 3) with
-        | none => rfl
-        | some r' =>
-          obtain ⟨j, g, j1, j2, hg, hb', rfl, _⟩ := singleDayV_some _ _ _ _ _ _ _ _ hs'
-          have hkj : k ≤ j := by
-            by_cases hh : k ≤ j
-            · exact hh
-            · have := hbefore j g (by omega) (by omega) hg
-              omega
-          have := so.shiftC_mono hso (ofYmd?_year_mono hkj hf hg)
-          simp only [Bool.and_eq_false_iff, decide_eq_false_iff_not]
-          omega
-      intro d' a b c
-      rw [hout d' a b c, hout d (Int.le_refl _) (by omega) hd2]
-
-/-- **S2** (abstract form): the single-day path is sound under `SDLocal` or `SDEmpty`. -/
-theorem MonthdayRange.date_hintOK_singleDay (m dd : Nat) (so eo : DateOffset)
-    (hw : (MonthdayRange.date (.fixed none m dd) so (.fixed none m dd) eo).wf = true)
-    (hside : SDLocal m dd so eo ∨ SDEmpty m dd so eo) (d : Int) (hd1 : dateStart ≤ d) (hd2 : d < dateEnd) :
-    HintOK (MonthdayRange.date (.fixed none m dd) so (.fixed none m dd) eo).filter
-      (MonthdayRange.date (.fixed none m dd) so (.fixed none m dd) eo).hint d := by
-  have hwf := hw
-  simp only [MonthdayRange.wf, Bool.and_eq_true] at hw
-  obtain ⟨⟨⟨_, hso⟩, _⟩, _⟩ := hw
-  have hf : ∀ d', datedFilterV (.fixed none m dd) so (.fixed none m dd) eo d' = sdFilterV m dd so eo d' := by
-    intro d'
-    simp only [datedFilterV, singleDayOf, sdYears, sdFilterV, if_true]
-    cases singleDayV m dd so eo d' (yearsAround (year d') 1 1) <;> rfl
-  have hh : datedHintV (.fixed none m dd) so (.fixed none m dd) eo d = sdHintV m dd so eo d := by
-    simp only [datedHintV, singleDayOf, sdYears, sdHintV, if_true]
-    cases singleDayV m dd so eo d (yearsAround (year d) 1 10) <;> rfl
-  apply MonthdayRange.date_hintOK_of_V _ _ _ _ hwf d
-  · rw [hh]
-    rcases hside with hL | hE
-    · exact (sd_sound_local m dd so eo hso hL d hd1 hd2).1
-    · exact (sd_sound_empty m dd so eo hE d hd1 hd2).1
-  · intro d' a b c
-    rw [hh] at b
-    rw [hf d', hf d]
-    rcases hside with hL | hE
-    · exact (sd_sound_local m dd so eo hso hL d hd1 hd2).2 d' a b c
-    · rw [(sd_sound_empty m dd so eo hE d hd1 hd2).2 d' a c,
-        (sd_sound_empty m dd so eo hE d hd1 hd2).2 d (Int.le_refl _) hd2]
 
 end OH.Model
